@@ -12,6 +12,7 @@ import MysyncModel.Replay.C17
 import MysyncModel.Replay.C16
 import MysyncModel.Replay.Mgr
 import MysyncModel.Replay.C09
+import MysyncModel.Replay.C08
 
 open Lean Replay
 
@@ -26,7 +27,8 @@ def handlers : List (String × Handler) := [
   ("c16bsf", Replay.C16.handleBsf),
   ("c16repair", Replay.C16.handleRepair),
   ("mgrtick", Replay.Mgr.handleTick),
-  ("c09h", Replay.C09.handle)
+  ("c09h", Replay.C09.handle),
+  ("c08", Replay.C08.handle)
 ]
 
 partial def loop (h : IO.FS.Stream) (seen : Std.HashSet UInt64) (a : Acc) : IO Acc := do
